@@ -40,7 +40,8 @@ class Transform:
 
 
 class Twin:
-    def __init__(self, transform, rules=default_rules, align_timeout_ms=4000, facts=()):
+    def __init__(self, transform, rules=default_rules, align_timeout_ms=4000, facts=(), align=True):
+        self.do_align = align
         self.T = transform
         self.rules = rules
         self.align_timeout_ms = align_timeout_ms
@@ -141,6 +142,8 @@ class Twin:
         return base + defs + cone_defs(c, [goal] + defs)
 
     def _align(self, c, evA, evB):
+        if not self.do_align:
+            return
         al = Aligner(c, facts=list(c.assumptions) + list(self.align_facts), rules=self.rules, timeout_ms=self.align_timeout_ms)
         n0 = len(al.facts)
         al.lockstep(evA, evB)
